@@ -937,15 +937,9 @@ impl Model for Cw20Model {
         let (sender, msg) = self.exec_msg(a).unwrap();
         let out = w.execute_json(&cfg.addr(sender), &token_addr(), &msg, &[]);
         let ok = out.ok();
-        let obs = match self.observe(&w) {
-            Ok(o) => o,
-            Err(e) => {
-                v.push(Violation::new("observe_failed", e));
-                Obs::default()
-            }
-        };
         if !ok {
-            if obs != *pre {
+            // a refused call must leave the whole world (hence every query answer) untouched
+            if fp128(&w) != fp128(&s.w) {
                 v.push(Violation::new("failed_call_changed_state", format!("{a:?}")));
             }
             return Step {
@@ -955,6 +949,13 @@ impl Model for Cw20Model {
                 violations: v,
             };
         }
+        let obs = match self.observe(&w) {
+            Ok(o) => o,
+            Err(e) => {
+                v.push(Violation::new("observe_failed", e));
+                Obs::default()
+            }
+        };
         // ------- the call was accepted: the reference decides whether it was allowed to be
         let bal = |r: &Ref, i: u8| r.bal.get(&i).copied().unwrap_or(0);
         let mut expect_msgs: Option<(u8, u8, u128, u8)> = None; // (initiator, contract, amount, payload)
